@@ -19,6 +19,7 @@
 #include <linux/hw_breakpoint.h>
 #include <ucontext.h>
 #include <pthread.h>
+#include <sys/time.h>
 
 using namespace sim;
 
@@ -159,6 +160,7 @@ struct MemEngine : Engine {
     alignas(64) unsigned char areg[4][64]; alignas(64) unsigned char mreg[4][64];
     alignas(64) unsigned char idxbuf[64]; alignas(64) unsigned char scratch[128]; alignas(64) unsigned char garbage[64];
     bool watch_ok = false; std::string calib; int cpu_level = 0;   // 0 sse, 1 avx, 2 avx512f, 3 avx512bw
+    int call_limit_s = 3;
     RunResult* rr = nullptr; Stats* st = nullptr; std::size_t last_pf_end = (std::size_t)-1; int last_pf_key = -1;
 
     const char* name() const override { return "mem"; }
@@ -179,7 +181,7 @@ struct MemEngine : Engine {
         struct sigaction sa; std::memset(&sa, 0, sizeof sa); sa.sa_sigaction = on_segv; sa.sa_flags = SA_SIGINFO | SA_NODEFER;
         sigaction(SIGSEGV, &sa, nullptr); sigaction(SIGBUS, &sa, nullptr); sigaction(SIGFPE, &sa, nullptr); sigaction(SIGILL, &sa, nullptr);
         sa.sa_sigaction = on_trap; sa.sa_flags = SA_SIGINFO; sigaction(SIGTRAP, &sa, nullptr);
-        { struct sigaction al; std::memset(&al, 0, sizeof al); al.sa_handler = on_alarm_mem; al.sa_flags = SA_NODEFER; sigaction(SIGALRM, &al, nullptr); }
+        { struct sigaction al; std::memset(&al, 0, sizeof al); al.sa_handler = on_alarm_mem; al.sa_flags = SA_NODEFER; sigaction(SIGALRM, &al, nullptr); sigaction(SIGPROF, &al, nullptr); }
         cpu_level = __builtin_cpu_supports("avx512bw") ? 3 : __builtin_cpu_supports("avx512f") ? 2 : __builtin_cpu_supports("avx") ? 1 : 0;
         calibrate();
         build_sweep();
@@ -303,7 +305,9 @@ struct MemEngine : Engine {
         g_nfaults = 0; g_abort_reason = 0;
         sigjmp_buf jb; bool ok = true;
         if (poison) { poison_stack(poison); tag_bytes(poison * 977u, garbage, 64); sim_poison_vector_regs(garbage, cpu_level); }
-        unsigned alarm_left = alarm(3);           // per-call limit: an operation that does not return is a violation, not a stalled batch
+        // per-call limit in CPU time of this process (a hang spins; a loaded machine must not look like one): an operation that does
+        // not return is a violation, not a stalled batch
+        { struct itimerval it; std::memset(&it, 0, sizeof it); it.it_value.tv_sec = call_limit_s; setitimer(ITIMER_PROF, &it, nullptr); }
         if (sigsetjmp(jb, 1) == 0) {
             g_jmp = &jb;
             if (wfd_leader >= 0) { ioctl(wfd_leader, PERF_EVENT_IOC_RESET, PERF_IOC_FLAG_GROUP); ioctl(wfd_leader, PERF_EVENT_IOC_ENABLE, PERF_IOC_FLAG_GROUP); }
@@ -315,8 +319,16 @@ struct MemEngine : Engine {
             if (wfd_leader >= 0) ioctl(wfd_leader, PERF_EVENT_IOC_DISABLE, PERF_IOC_FLAG_GROUP);
         }
         g_jmp = nullptr;
-        if (!ok && g_abort_reason == 4) tf_off();
-        alarm(alarm_left ? alarm_left : 120);
+        { struct itimerval it; std::memset(&it, 0, sizeof it); setitimer(ITIMER_PROF, &it, nullptr); }
+        if (!ok && g_abort_reason == 4) {
+            tf_off();
+            if (call_limit_s < 8) {
+                // confirm before calling it a hang: once more with four times the budget
+                int saved = call_limit_s; call_limit_s = 8; st->obs["slow_call_retried_with_longer_limit"]++;
+                bool again = run_call(c, poison, tf_k, tf_total, tf_fired, wfd_leader);
+                call_limit_s = saved; return again;
+            }
+        }
         return ok;
     }
 
@@ -468,7 +480,7 @@ struct MemEngine : Engine {
             const FaultRec& f = fr[nf ? nf - 1 : 0];
             char d[320];
             if (abort_reason == 4) {
-                std::snprintf(d, sizeof d, "%s %s form=%s n=%u: the call did not return within 3 s", op.c_str(), t->name, c.form.c_str(), c.n);
+                std::snprintf(d, sizeof d, "%s %s form=%s n=%u: the call did not return within 3 s (and, retried, within 8 s) of CPU time", op.c_str(), t->name, c.form.c_str(), c.n);
                 rr->violate("C08", stepno, {"C08", "hang", op, t->name, c.form}, d);
             } else if (abort_reason == 5 || abort_reason == 6) {
                 std::snprintf(d, sizeof d, "%s %s form=%s n=%u: raised %s code=%s", op.c_str(), t->name, c.form.c_str(), c.n, abort_reason == 5 ? "SIGFPE" : "SIGILL", hexbytes(f.code, 8).c_str());
@@ -588,7 +600,7 @@ struct MemEngine : Engine {
         if (ptr == "null") st->probes["prefetch_null_pointer"]++;
         if (bytes == 0) st->probes["prefetch_n0"]++;
         if (!ok && abort_reason == 4) {
-            char d[200]; std::snprintf(d, sizeof d, "%s level=%d form=%s n=%zu ptr=%s: the call did not return within 3 s", opn, c.plevel, form.c_str(), c.pn, ptr.c_str());
+            char d[200]; std::snprintf(d, sizeof d, "%s level=%d form=%s n=%zu ptr=%s: the call did not return within 3 s (and, retried, within 8 s) of CPU time", opn, c.plevel, form.c_str(), c.pn, ptr.c_str());
             rr->violate("C20", stepno, {"C20", "hang", opn, form}, d); return;
         }
         if (!ok || nf > 0) {
@@ -889,7 +901,7 @@ struct MemEngine : Engine {
 struct Boot { int argc; char** argv; int rc; };
 void* engine_thread(void* a) {
     // timer signals must be handled by THIS thread (the handler longjmps into this thread's stack): main keeps SIGALRM blocked
-    sigset_t m; sigemptyset(&m); sigaddset(&m, SIGALRM); pthread_sigmask(SIG_UNBLOCK, &m, nullptr);
+    sigset_t m; sigemptyset(&m); sigaddset(&m, SIGALRM); sigaddset(&m, SIGPROF); pthread_sigmask(SIG_UNBLOCK, &m, nullptr);
     Boot* b = (Boot*)a; static MemEngine e; b->rc = worker_main(e, b->argc, b->argv); return nullptr;
 }
 
@@ -900,7 +912,7 @@ int main(int argc, char** argv) {
     // the engine runs on a stack at a fixed address so that stack residues and instruction counts replay exactly
     void* stk = mmap((void*)STACK_BASE, STACK_SIZE, PROT_READ | PROT_WRITE, MAP_PRIVATE | MAP_ANONYMOUS | MAP_FIXED_NOREPLACE, -1, 0);
     if (stk != (void*)STACK_BASE) { std::printf("E {\"error\":\"cannot map fixed engine stack\"}\n"); return 2; }
-    { sigset_t m; sigemptyset(&m); sigaddset(&m, SIGALRM); pthread_sigmask(SIG_BLOCK, &m, nullptr); }
+    { sigset_t m; sigemptyset(&m); sigaddset(&m, SIGALRM); sigaddset(&m, SIGPROF); pthread_sigmask(SIG_BLOCK, &m, nullptr); }
     Boot b{argc, argv, 2}; pthread_attr_t at; pthread_attr_init(&at); pthread_attr_setstack(&at, stk, STACK_SIZE);
     pthread_t th; if (pthread_create(&th, &at, engine_thread, &b) != 0) { std::printf("E {\"error\":\"cannot start engine thread\"}\n"); return 2; }
     pthread_join(th, nullptr);
